@@ -60,6 +60,8 @@ type fileCtx struct {
 	pkg   *packages.Package
 	errs  []string
 	tail  []string
+	skip  map[ast.Node]bool // communication statements of rewritten selects
+	nsel  int
 }
 
 func (fc *fileCtx) off(p token.Pos) int { return fc.tf.Offset(p) }
@@ -80,6 +82,126 @@ func (fc *fileCtx) replace(from, to token.Pos, text string) {
 	fc.seq++
 	fc.edits = append(fc.edits, edit{off: fc.off(from), end: fc.off(to), text: text, seq: fc.seq})
 	fc.used = true
+}
+
+// replaceKeepLines is replace for a range that may span lines: the line breaks
+// it swallows are appended, so no later line changes its number.
+func (fc *fileCtx) replaceKeepLines(from, to token.Pos, text string) {
+	old := fc.src[fc.off(from):fc.off(to)]
+	n := strings.Count(string(old), "\n") - strings.Count(text, "\n")
+	for i := 0; i < n; i++ {
+		text += "\n"
+	}
+	fc.replace(from, to, text)
+}
+
+func (fc *fileCtx) text(n ast.Node) string {
+	return string(fc.src[fc.off(n.Pos()):fc.off(n.End())])
+}
+
+// simpleOperand: an expression the select rewrite may move textually (it must
+// not contain anything else the instrumenter would splice into).
+func simpleOperand(e ast.Expr) bool {
+	ok := true
+	ast.Inspect(e, func(n ast.Node) bool {
+		switch x := n.(type) {
+		case *ast.FuncLit:
+			ok = false
+		case *ast.UnaryExpr:
+			if x.Op == token.ARROW {
+				ok = false
+			}
+		}
+		return ok
+	})
+	return ok
+}
+
+// rewriteSelect turns a select statement into a switch over gcsimrt.(*Sel).Do.
+func (fc *fileCtx) rewriteSelect(x *ast.SelectStmt, fn string) {
+	fc.nsel++
+	id := fc.nsel
+	sv := fmt.Sprintf("gcsimS%d", id)
+	if len(x.Body.List) == 0 {
+		fc.site("select", x.Pos(), fn)
+		fc.replace(x.Pos(), x.End(), "gcsimrt.BlockForever()")
+		return
+	}
+	var chanVars, chanExprs, cases []string
+	hasDefault := false
+	type plan struct {
+		cc     *ast.CommClause
+		prefix string
+		idx    int
+	}
+	var plans []plan
+	k := 0
+	for _, st := range x.Body.List {
+		cc := st.(*ast.CommClause)
+		if cc.Comm == nil {
+			hasDefault = true
+			continue
+		}
+		cv := fmt.Sprintf("gcsimC%d_%d", id, k)
+		pl := plan{cc: cc, idx: k}
+		var recv *ast.UnaryExpr
+		switch c := cc.Comm.(type) {
+		case *ast.SendStmt:
+			if !simpleOperand(c.Chan) || !simpleOperand(c.Value) {
+				fc.fail(c.Pos(), "unsupported: select case with a function literal or a receive inside its operands")
+				return
+			}
+			fc.skip[c] = true
+			chanVars, chanExprs = append(chanVars, cv), append(chanExprs, fc.text(c.Chan))
+			cases = append(cases, fmt.Sprintf("gcsimrt.SendCase(%s, %s)", cv, fc.text(c.Value)))
+		case *ast.ExprStmt:
+			recv, _ = ast.Unparen(c.X).(*ast.UnaryExpr)
+		case *ast.AssignStmt:
+			if len(c.Rhs) == 1 {
+				recv, _ = ast.Unparen(c.Rhs[0]).(*ast.UnaryExpr)
+			}
+			if recv != nil {
+				var lhs []string
+				for _, l := range c.Lhs {
+					if !simpleOperand(l) {
+						fc.fail(c.Pos(), "unsupported: select case assigning to a complex expression")
+						return
+					}
+					lhs = append(lhs, fc.text(l))
+				}
+				f := "Received"
+				if len(lhs) == 2 {
+					f = "Received2"
+				}
+				pl.prefix = fmt.Sprintf(" %s %s gcsimrt.%s(%s, %s);", strings.Join(lhs, ", "), c.Tok.String(), f, cv, sv)
+			}
+		}
+		if _, isSend := cc.Comm.(*ast.SendStmt); !isSend {
+			if recv == nil || recv.Op != token.ARROW || !simpleOperand(recv.X) {
+				fc.fail(cc.Pos(), "unsupported: select communication clause")
+				return
+			}
+			fc.skip[recv] = true
+			chanVars, chanExprs = append(chanVars, cv), append(chanExprs, fc.text(recv.X))
+			cases = append(cases, fmt.Sprintf("gcsimrt.RecvCase(%s)", cv))
+		}
+		plans = append(plans, pl)
+		k++
+	}
+	fc.site("select", x.Pos(), fn)
+	init := fmt.Sprintf("%s := gcsimrt.NewSel()", sv)
+	if len(chanVars) > 0 {
+		init = fmt.Sprintf("%s, %s := %s, gcsimrt.NewSel()", strings.Join(chanVars, ", "), sv, strings.Join(chanExprs, ", "))
+	}
+	args := fmt.Sprint(hasDefault)
+	if len(cases) > 0 {
+		args += ", " + strings.Join(cases, ", ")
+	}
+	fc.replace(x.Select, x.Select+token.Pos(len("select")), fmt.Sprintf("switch %s; %s.Do(%s)", init, sv, args))
+	for _, pl := range plans {
+		// case <comm>:  ->  case <index>: <prefix>
+		fc.replaceKeepLines(pl.cc.Case, pl.cc.Colon+1, fmt.Sprintf("case %d:%s", pl.idx, pl.prefix))
+	}
 }
 
 func (fc *fileCtx) site(kind string, p token.Pos, fn string) int {
@@ -233,7 +355,7 @@ func (fc *fileCtx) walk(opt Options) {
 			}
 			fc.insertCloser(x.End(), "; gcsimrt.Spawned()")
 		case *ast.SendStmt:
-			if !opt.Yields {
+			if !opt.Yields || fc.skip[x] {
 				break
 			}
 			fc.site("send", x.Pos(), fc.funcName(stack))
@@ -241,7 +363,7 @@ func (fc *fileCtx) walk(opt Options) {
 			fc.replace(x.Arrow, x.Arrow+2, ",")
 			fc.insertCloser(x.Value.End(), ")")
 		case *ast.UnaryExpr:
-			if !opt.Yields || x.Op != token.ARROW {
+			if !opt.Yields || x.Op != token.ARROW || fc.skip[x] {
 				break
 			}
 			two := false
@@ -251,8 +373,6 @@ func (fc *fileCtx) walk(opt Options) {
 					two = len(p.Lhs) == 2 && len(p.Rhs) == 1 && p.Rhs[0] == x
 				case *ast.ValueSpec:
 					two = len(p.Names) == 2 && len(p.Values) == 1 && p.Values[0] == x
-				case *ast.CommClause:
-					fc.fail(x.Pos(), "unsupported: select communication")
 				}
 			}
 			fc.site("recv", x.Pos(), fc.funcName(stack))
@@ -264,7 +384,7 @@ func (fc *fileCtx) walk(opt Options) {
 			fc.insertCloser(x.X.End(), ")")
 		case *ast.SelectStmt:
 			if opt.Yields {
-				fc.fail(x.Pos(), "unsupported: select statement")
+				fc.rewriteSelect(x, fc.funcName(stack))
 			}
 		case *ast.RangeStmt:
 			t := fc.info.TypeOf(x.X)
@@ -488,7 +608,7 @@ func Instrument(repoDir, outDir string, specs []PackageSpec, env []string) (*Res
 				return nil, err
 			}
 			rel, _ := filepath.Rel(repoDir, path)
-			fc := &fileCtx{fset: fset, file: f, tf: fset.File(f.Pos()), src: src, info: p.TypesInfo, rel: rel, res: res, pkg: p}
+			fc := &fileCtx{fset: fset, file: f, tf: fset.File(f.Pos()), src: src, info: p.TypesInfo, rel: rel, res: res, pkg: p, skip: map[ast.Node]bool{}}
 			fc.walk(opt)
 			if !fc.used {
 				allErrs = append(allErrs, fc.errs...)
